@@ -4,11 +4,16 @@
    Signal/Avalanches.v (MainEvent::avalanches of lib.rs and matching.rs) with the numeric kernels
    abstract: D block deconvolution, P pad deconvolution, zf pad centroid, sortW/sortP the two sorts.
 
-   Two classes of events are excluded by hypothesis and are OPEN known findings on the real code:
-     full_ring_256      (F3)  all 256 wires carry data            -> C13_rotation_full_ring_refuted
-     pad_amplitude_tie  (F6)  equal pad amplitudes in a time bin  -> C13_pad_tie_witness *)
-From Coq Require Import Permutation Sorted.
-From AG Require Import Base.Prelude Signal.Ring Signal.Ring_proofs Signal.Avalanches Signal.Avalanches_proofs.
+   Three classes of events are OPEN known findings on the real code:
+     full_ring_256            (F3)   all 256 wires carry data            -> C13_rotation_full_ring_refuted
+     pad_amplitude_tie        (F6)   equal pad amplitudes in a time bin  -> C13_pad_tie_witness
+     centroid_ill_conditioned (F11)  a pad hit with middle^2/(first*last) - 1 < 3.4e-10: the binary64 centroid is
+                                     not antisymmetric to 1e-9 m       -> C13_centroid_ill_conditioned_witness
+   The first two are excluded by hypothesis of the skeleton theorems; the third concerns only the numeric
+   centroid formula, which the skeleton theorems leave abstract / symbolic. *)
+From Coq Require Import Permutation Sorted Floats.
+From AG Require Import Base.Prelude Signal.Ring Signal.Ring_proofs Signal.Avalanches Signal.Avalanches_proofs
+  Signal.Avalanches_float_proofs.
 
 (* --- the ring of wires ---------------------------------------------------------------------- *)
 
@@ -115,18 +120,22 @@ Print Assumptions C13_rotation_full_ring_refuted.
 
 (* For every event outside the class pad_amplitude_tie: mirroring the pad rows (r -> 575 - r) maps every
    avalanche to the same wire, time and amplitudes with z negated, in the same order.
-   Assumed: the centroid is antisymmetric (exactly, here; to 1e-9 m in binary64, checked by the rel-mir
-   lines); distinct amplitudes are comparable; sortP returns a permutation sorted by descending amplitude
-   (nothing about the order of ties, as for an unstable sort). *)
+   Assumed: the centroid is antisymmetric (exactly, here); distinct HIT amplitudes (hit_amp: values exceeding a
+   neighbour that is > 0.0, the only ones that reach the pad-hit sort) are comparable; sortP returns a
+   permutation, sorted by descending amplitude on lists of hit amplitudes (nothing about the order of ties, as
+   for an unstable sort).  The comparability and sortedness premises are restricted to hit amplitudes because
+   they are FALSE for arbitrary binary64 values (C13_float_order_not_total: NaN vs 1.0) and TRUE for binary64 hit
+   amplitudes (C13_float_hit_amplitudes_ordered), so that the theorem can be instantiated on the executable
+   binary64 skeleton: C13_mirror_equivariant_executable. *)
 Theorem C13_mirror_equivariant :
   forall (sig amp zt : Type) (azero : amp) (apos : amp -> bool) (agt : amp -> amp -> bool)
          (zf : N -> amp -> amp -> amp -> zt) (D : list sig -> list (list amp)) (P : sig -> list amp)
          (sortW : list (N * amp) -> list (N * amp)) (sortP : list (zt * amp) -> list (zt * amp))
          (zneg : zt -> zt),
     (forall r f m l, r <= 575 -> zf (575 - r) l m f = zneg (zf r f m l)) ->
-    (forall a b : amp, a <> b -> agt a b = true \/ agt b a = true) ->
+    (forall a b : amp, hit_amp apos agt a -> hit_amp apos agt b -> a <> b -> agt a b = true \/ agt b a = true) ->
     (forall l, Permutation (sortP l) l) ->
-    (forall l, StronglySorted (descP agt) (sortP l)) ->
+    (forall l, hitsP apos agt l -> StronglySorted (descP agt) (sortP l)) ->
     forall (ws : list (option sig)) (pads : list (list (option sig))),
       Forall (fun col => N.of_nat (length col) = NROWS) pads ->
       NoPadTie azero apos agt zf P pads ->
@@ -134,6 +143,78 @@ Theorem C13_mirror_equivariant :
       = map (neg_z zneg) (avalanches azero apos agt zf D P sortW sortP ws pads).
 Proof. exact (@mirror_equivariant_lemma). Qed.
 Print Assumptions C13_mirror_equivariant.
+
+(* --- mirror, on the executable binary64 skeleton (the one the differential run replays) ----------------- *)
+
+(* binary64 `>` is not total on distinct values ... *)
+Theorem C13_float_order_not_total :
+  ~ (forall a b : float, a <> b -> fgt a b = true \/ fgt b a = true).
+Proof. exact fgt_total_unrestricted_false. Qed.
+Print Assumptions C13_float_order_not_total.
+
+(* ... but it is a strict total order on hit amplitudes (positive, not NaN), and the stable insertion sort
+   of the model sorts lists of them (standard library FloatAxioms: ltb_spec, Prim2SF/SF2Prim) *)
+Theorem C13_float_hit_amplitudes_ordered :
+  (forall a b : float, hit_amp fpos fgt a -> hit_amp fpos fgt b -> a <> b -> fgt a b = true \/ fgt b a = true) /\
+  (forall (zt : Type) (l : list (zt * float)),
+     hitsP fpos fgt l -> StronglySorted (descP fgt) (isort (lessP fgt) l)).
+Proof. exact float_hit_amplitudes_ordered_lemma. Qed.
+Print Assumptions C13_float_hit_amplitudes_ordered.
+
+(* the skeleton never looks at z: avalanches_f zf is the symbolic skeleton avalanches_s (z = (row, first,
+   middle, last)) with the centroid evaluated afterwards *)
+Theorem C13_executable_factor :
+  forall zf D P (ws : list (option N)) (pads : list (list (option N))),
+    avalanches_f zf D P ws pads = map (map_z (zeval zf)) (avalanches_s D P ws pads).
+Proof. exact avalanches_f_factor. Qed.
+Print Assumptions C13_executable_factor.
+
+(* MIRROR THEOREM FOR BINARY64 AMPLITUDES, no premise on the kernels D, P, zf and none on the amplitudes:
+   for every event without a pad-amplitude tie, the avalanches of the mirrored event are, in the same order,
+   the avalanches of the event with the same wire, time bin, wire and pad amplitude (bit-identical), and
+   z = zf (575 - row) last middle first  where the event has  z = zf row first middle last.
+   Block finding, column selection, hit extraction, both sorts and the pairing are thereby proved mirror
+   invariant for the executable binary64 skeleton. *)
+Theorem C13_mirror_equivariant_executable :
+  forall zf D P (ws : list (option N)) (pads : list (list (option N))),
+    Forall (fun col => N.of_nat (length col) = NROWS) pads ->
+    NoPadTie 0%float fpos fgt zf P pads ->
+    avalanches_f zf D P ws (mirror pads)
+    = map (map_z (fun z => zeval zf (zmir z))) (avalanches_s D P ws pads).
+Proof. exact mirror_equivariant_f_lemma. Qed.
+Print Assumptions C13_mirror_equivariant_executable.
+
+(* the same on the symbolic skeleton, as an instance of C13_mirror_equivariant (zneg := zmir: antisymmetry is
+   exact there) *)
+Theorem C13_mirror_equivariant_symbolic :
+  forall D P (ws : list (option N)) (pads : list (list (option N))),
+    Forall (fun col => N.of_nat (length col) = NROWS) pads ->
+    NoPadTie 0%float fpos fgt zf_sym P pads ->
+    avalanches_s D P ws (mirror pads) = map (map_z zmir) (avalanches_s D P ws pads).
+Proof. exact mirror_equivariant_s_lemma. Qed.
+Print Assumptions C13_mirror_equivariant_symbolic.
+
+(* WHAT IS LEFT for the property's "z negated within 1e-9 m" is a statement about ONE numeric function, the
+   centroid formula of matching.rs:80-84:  | zf (575 - row) last middle first + zf row first middle last | <= 1e-9
+   for every hit triple.  Over the reals the sum is exactly 0 (C13_centroid_antisymmetric_real below).  In binary64
+   it is NOT within 1e-9 m for every hit triple: class centroid_ill_conditioned, finding F11 — witness on
+   PrimFloat without libm (the two logarithm arguments fl(last/first) and fl(first/last) are not reciprocal while
+   sigma^2 is bit-identical; explanation in Signal/Avalanches_float_proofs.v section 5).  Outside the class the
+   bound is measured by the rel-mir lines of the differential run, not proved (it needs an error model of libm's
+   ln; the error analysis in harness/phys/src/c13.rs gives 0.002 * 1.5 * 2^-53 / cond + 6e-16 m). *)
+Theorem C13_centroid_ill_conditioned_witness :
+  (fpos w11_f && fpos w11_l && fgt w11_m w11_f && fgt w11_m w11_l)%bool = true /\
+  PrimFloat.ltb (cond_number w11_f w11_m w11_l) THETA = true /\
+  Prim2SF (w11_m * w11_m / (w11_f * w11_l)) = S754_finite false (2 ^ 52 + 11) (-52) /\
+  Prim2SF (w11_f * w11_l) = Prim2SF (w11_l * w11_f) /\
+  Prim2SF (w11_l / w11_f) = S754_finite false (2 ^ 52 + 2) (-52) /\
+  Prim2SF (w11_f / w11_l) = S754_finite false (2 ^ 53 - 3) (-53) /\
+  ((2 ^ 52 + 2) * (2 ^ 53 - 3) <> 2 ^ 105)%Z.
+Proof. exact illcond_witness_lemma. Qed.
+Print Assumptions C13_centroid_ill_conditioned_witness.
+
+Example C13_ill_conditioned_class_inhabited : centroid_ill_conditioned w11_P [w11_col].
+Proof. exact illcond_witness_in_class. Qed.
 
 (* class pad_amplitude_tie: witness in the class (the F6 event of DESIGN.md A.12, exact arithmetic,
    the executable stable sort), all other premises true, conclusion false *)
@@ -184,7 +265,10 @@ Proof. vm_compute. repeat split; reflexivity. Qed.
      sigma^2 = w^2 / ln (middle^2 / (first * last)),  w = PAD_PITCH_Z = 2.304 / 576,
      pad_row_z r = (r + 1/2) * w - 2.304 / 2,   576 = gen_TPC_PAD_ROWS (regenerated from the source).
 
-   What remains between these theorems and the binary64 implementation -- ROUNDING ONLY:
+   What remains between these theorems and the binary64 implementation is the rounding of this ONE formula
+   (the pairing / sorting / ordering part of the mirror statement is proved for binary64 amplitudes:
+   C13_mirror_equivariant_executable).  The rounding is NOT harmless everywhere: class
+   centroid_ill_conditioned, finding F11 (C13_centroid_ill_conditioned_witness).  In detail:
    * pad_row_z: `(row as f64 + 0.5) * PAD_PITCH_Z - DETECTOR_HALF_LENGTH` is evaluated with PAD_PITCH_Z =
      fl(2.304 / 576), one rounded product and one rounded difference; the two mirrored rows round
      independently, so fl(z(575 - r)) = - fl(z(r)) holds only up to a few ulp of 1.152 m (~ 1e-16 m).
@@ -193,15 +277,17 @@ Proof. vm_compute. repeat split; reflexivity. Qed.
      rounding of the quotient and the accuracy of libm's ln; first * last is commutative in binary64, so
      sigma^2 is bit-identical on both sides.  The term is bounded by w/2 * |ln(l/f)| / ln(m^2/(f l)) < w/2 = 2 mm
      (under the hit condition |ln (l/f)| < ln (m^2/(f l))), hence the absolute discrepancy is of the order
-     of 1e-18..1e-15 m except when ln (m^2/(f l)) is itself at rounding level (middle within a few ulp of
-     both neighbours), where the quotient amplifies the relative error of the denominator.
+     of 1e-18..1e-15 m except when ln (m^2/(f l)) is small: the absolute error (<= 1.5 * 2^-53) of
+     ln fl(l/f) + ln fl(f/l) is divided by it, giving up to 0.002 * 1.5 * 2^-53 / (m^2/(f l) - 1) m: more than
+     1e-9 m for m^2/(f l) - 1 < 3.33e-10 (measured: up to 2.22e-10; 2.5e-4 m at 1e-15) = finding F11.
    * no real-number fact is missing: the formula is EXACTLY antisymmetric (C13_centroid_antisymmetric_real),
      the hit condition is EXACTLY symmetric (C13_hit_condition_symmetric; the comparisons `>` on binary64
      are exact, so this part carries over to the implementation as it is), and under the hit condition
      every division and logarithm of the formula is well defined (C13_hit_condition_well_defined).
    The property tolerates 1e-9 m; the binary64 discrepancy |z(mirrored) + z(original)| is MEASURED against
-   that tolerance by the `rel-mir` lines of the C13 differential run on every generated event (it is not
-   proved: a proof needs an error model of libm's ln, which the tooling present does not provide).
+   that tolerance by the `rel-mir` lines of the C13 differential run on every generated event outside the
+   class centroid_ill_conditioned (it is not proved: a proof needs an error model of libm's ln, which the
+   tooling present does not provide); events inside the class carry the tag relkf-illcond.
 
    Allowed axioms: the standard library's real-number axioms (ClassicalDedekindReals.sig_forall_dec,
    sig_not_dec, FunctionalExtensionality.functional_extensionality_dep, Classical_Prop.classic). *)
@@ -281,7 +367,7 @@ Theorem C13_mirror_equivariant_real :
   forall (sig : Type) (D : list sig -> list (list R)) (P : sig -> list R)
          (sortW : list (N * R) -> list (N * R)) (sortP : list (R * R) -> list (R * R)),
     (forall l, Permutation (sortP l) l) ->
-    (forall l, StronglySorted (descP Rgtb) (sortP l)) ->
+    (forall l, hitsP Rposb Rgtb l -> StronglySorted (descP Rgtb) (sortP l)) ->
     forall (ws : list (option sig)) (pads : list (list (option sig))),
       Forall (fun col => N.of_nat (length col) = NROWS) pads ->
       NoPadTie 0%R Rposb Rgtb zR P pads ->
@@ -291,7 +377,7 @@ Proof.
   intros sig D P sortW sortP Hperm Hsorted ws pads Hrows Hnt.
   apply (@mirror_equivariant_lemma sig R R 0%R Rposb Rgtb zR D P sortW sortP Ropp); auto.
   - intros r f m l Hr. apply centroid_antisymmetric_total_lemma. exact Hr.
-  - exact Rgtb_total.
+  - intros a b _ _. apply Rgtb_total.
 Qed.
 Print Assumptions C13_mirror_equivariant_real.
 
